@@ -224,7 +224,16 @@ def check_pair(case, ctx):
         fullA, fullB = allA, allB
         for src, dst, nm in ((A, B, pair), (B, A, pair[::-1])):
             for p in src:
-                ok = any(abs(p[0] - q[0]) <= 2e-4 and abs(p[1] - q[1]) <= 2e-4 for q in (fullB if dst is B else fullA))
+                others = fullB if dst is B else fullA
+                ok = any(abs(p[0] - q[0]) <= 2e-4 and abs(p[1] - q[1]) <= 2e-4 for q in others)
+                if not ok:
+                    # a curve that passes through the crossing point twice (fold-back / closed curve): the solver merges
+                    # solutions by location, so either parameter of that curve may be reported; accept a result at the
+                    # same location
+                    zp = complex(a.point(p[0]))
+                    if any(abs(complex(a.point(q[0])) - zp) <= tol for q in others):
+                        ctx.count('swap_check_same_location_other_parameter')
+                        ok = True
                 ctx.check(ok, 'swap_asymmetry/%s/%s' % (''.join(sorted(pair)), case['cfg']),
                           '%s.intersect found a crossing near (%r, %r) that the swapped call does not report: %r vs swapped %r'
                           % (nm, p[0], p[1], sorted(A), sorted(B)))
